@@ -23,8 +23,8 @@ for d_, f in files:
     pid = f[:3]
     txt = open(os.path.join(d_, f)).read()
     wave = " Second wave (5b)." if d_ == R2 else ""
-    d = section(txt, r"(paragraph|text) for DESIGN")
-    c = section(txt, r"sentences?(?:\(s\))? for .*claim")
+    d = section(txt, r"DESIGN")
+    c = section(txt, r"claim")
     if d:
         d = re.sub(r"^\*\*?C\d\d[^*]*\*\*\.?\s*", "", d).strip().strip('"')
         bullets.append(f"* **{pid}** ({len(th[pid]['theorems'])} theorems).{wave} {d}")
